@@ -65,6 +65,11 @@ CHECKS = {
     technique="exact fixed-point acceptance predicate in TLA+ (Angle.tla, 4 limbs base 2^15) evaluated by TLC on the recorded outputs of the real float function",
     text="The property (every step has 0<=n<=255 and 0<=d<=255 and the steps add up to the angle modulo 2 pi within the tolerance) is a TLC-evaluated predicate in fixed-point arithmetic of resolution 2^-45 half turns; the real get_angle_spec_from_float is sampled on negative angles, angles beyond 2 pi, dyadic multiples of pi down to pi/2^32, values within tolerance of 0 and 2 pi and random angles, for tolerances 1e-1..1e-9 called in ascending and descending order on the same angle, and every returned step list is validated. This is sampling of a numeric function with an exact oracle, not model checking of IEEE-754 code.",
     note="Trusted: TLC, the rig's exact rational conversion of floats (fractions.Fraction, 60-digit pi). Two defects found and repaired in /repo (364376d): tolerance compared in units of pi; steps with d>=32 dropped."),
+ "C20": dict(
+    engine="toolbox", category="translation_validation", design="5 C20",
+    technique="executed gate/measure logs of the real SDK->controller pipeline validated by TLC: operator identities by the Pauli-rotation normal form (NvEquiv with reference circuits from Toolbox), parity measurements by Heisenberg pull-back (ParityCheck), state preparation by the fixed-point angle predicate (AngleTrace)",
+    text="toffoli_gate (all 6 role assignments) and t_inverse are run through the real SDK, real message bytes and the real controller; TLC proves the executed gate sequence equal, up to global phase and for every input state, to the reference H CCZ H (CCZ as its 7 commuting Z-string rotations) and to Rz(-pi/4). parity_meas is run for every signed Pauli string over I,X,Y,Z of length 1..3 and both outcomes: TLC checks that the measured observable pulled back to the initial frame is exactly +P (ancilla in |0>), that no data operator commuting with P is disturbed, and the rig checks the returned bit = outcome xor sign. set_qubit_state on a (theta, phi) grid incl. negative angles: structure exactly, angles by the C19 predicate.",
+    note="Trusted: TLC, Pauli.tla, the rig's gate log (scripted outcomes instead of a state-vector backend - the operator identity is stronger than sampled states). The Toffoli reference is sanity-checked numerically against the 8x8 matrix."),
 }
 
 REASON_TODO = "check not built yet (work in progress; see DESIGN.md section 9)"
